@@ -918,9 +918,14 @@ class C20(PropertyCheck):
                     if v[j] == 1:
                         defect = "none_bcast"
                 if multi and dim < 0:
-                    dim = nb  # negative dims are rejected by the MultiHeadedAttention constructor
-                    if defect in ("dim_lo", "dim_m1"):
-                        defect = "none"
+                    if defect in ("dim_lo", "dim_m1") and rng.random() < 0.5:
+                        # negative dims are rejected by the MultiHeadedAttention CONSTRUCTOR (ValueError,
+                        # "ambiguous"); the model's check_input with value_size is only ever reached with dim >= 0
+                        defect = "ctor_neg_dim"
+                    else:
+                        dim = nb
+                        if defect in ("dim_lo", "dim_m1"):
+                            defect = "none"
                 c = dict(base, flavour=rng.choice(FLAVOURS), multi=multi, defect=defect, query_size=qsz, key_size=ksz,
                          value_size=(D + 1 if defect == "v_size" else D) if multi else None,
                          dim=dim, q=q, k=k, v=v, m=m if (defect == "mask" or rng.random() < 0.8) else None,
@@ -1014,8 +1019,13 @@ class C20(PropertyCheck):
             inner = make_single({"kind": "dot", "scale": 1.0} if fl == "dot" else
                                 {"kind": "general", "W": [[1.0]], "b": None} if fl == "general" else
                                 {"kind": "concat", "W": [[1.0, 1.0]], "b": None, "v": [1.0]}, 1, 1, case["dim"])
-            mod = MultiHeadedAttention(case["query_size"], case["key_size"], case["value_size"], 1, inner,
-                                       d_v=case["value_size"])
+            try:
+                mod = MultiHeadedAttention(case["query_size"], case["key_size"], case["value_size"], 1, inner,
+                                           d_v=case["value_size"])
+            except ValueError:
+                if case.get("defect") == "ctor_neg_dim":
+                    return {"raised": "ValueError", "at": "constructor"}
+                raise
             with torch.no_grad():
                 mod.WV.weight.copy_(torch.eye(case["value_size"]))
                 mod.WC.weight.copy_(torch.eye(case["value_size"]))
@@ -1310,6 +1320,8 @@ class C20(PropertyCheck):
 
     # ---------------------------------------------------------------- model side
     def model_request(self, case):
+        if case["kind"] == "shape" and case.get("defect") == "ctor_neg_dim":
+            return None   # the constructor refuses: there is no call to model
         if case["kind"] == "shape":
             return {"op": "c20.shape", "case": {
                 "query_size": case["query_size"], "key_size": case["key_size"], "value_size": case["value_size"],
@@ -1377,6 +1389,11 @@ class C20(PropertyCheck):
 
     def compare(self, case, impl, model):
         out = []
+        if case["kind"] == "shape" and case.get("defect") == "ctor_neg_dim":
+            if impl.get("at") != "constructor":
+                out.append(f"MultiHeadedAttention around an attention with dim={case['dim']} < 0 was constructed "
+                           f"(documented: ValueError); implementation: {impl}")
+            return out
         if case["kind"] == "shape":
             if "error" in model:
                 want = "RuntimeError" if (case["multi"] or model["error"] == "runtime") else "ValueError"
